@@ -27,6 +27,8 @@ structure Ghost where
   rlog : Nat → Bytes := fun _ => []     -- bytes returned by reads on the object
   eof : Nat → Bool := fun _ => false    -- a read on the object returned end-of-stream
   dropped : List Nat := []              -- handles the application has dropped
+  dsent : List Dgram := []              -- datagrams accepted by `send_datagram`, in order
+  drecv : List Dgram := []              -- datagrams returned by `get_datagram`, in order
 
 def Ghost.addW (g : Ghost) (i : Nat) (d : Bytes) : Ghost :=
   { g with wlog := fun k => if k = i then g.wlog i ++ d else g.wlog k }
@@ -102,8 +104,12 @@ def stepL (p : PS) : Act → Option PS
   | .dropStream h =>
     if !liveHandle p.a p.ga h then none
     else some { p with a := (appDropStream p.a h).1, ga := { p.ga with dropped := h :: p.ga.dropped } }
-  | .sendDgram d => some { p with a := (appSendDgram p.a d).1 }
-  | .recvDgram => some { p with a := (appRecvDgram p.a).1 }
+  | .sendDgram d =>
+    let r := appSendDgram p.a d
+    some { p with a := r.1, ga := match r.2 with | .unit => { p.ga with dsent := p.ga.dsent ++ [d] } | _ => p.ga }
+  | .recvDgram =>
+    let r := appRecvDgram p.a
+    some { p with a := r.1, ga := match r.2 with | .dgram d => { p.ga with drecv := p.ga.drecv ++ [d] } | _ => p.ga }
   | .xmit =>
     match p.a.outq with
     | [] => none
@@ -173,6 +179,8 @@ def ghostOf (e : EP) (g : Ghost) (op : Mux.Op) (res : Res) : Ghost :=
   | .read h _, .data bs => match e.handles[h]? with | some i => g.addR i bs | none => g
   | .read h _, .eof => match e.handles[h]? with | some i => g.setEof i | none => g
   | .dropStream h, _ => { g with dropped := h :: g.dropped }
+  | .sendDgram d, .unit => { g with dsent := g.dsent ++ [d] }
+  | .recvDgram, .dgram d => { g with drecv := g.drecv ++ [d] }
   | _, _ => g
 
 /-- One application-call stimulus at the left endpoint. -/
